@@ -159,6 +159,10 @@ impl Stats {
                         }
                     }
                 }
+                Event::Fill { .. } | Event::Consumed { .. } => {
+                    self.console_ops += 1;
+                    Stats::bump(&mut self.rare, "stdin_read_without_read_line", 1);
+                }
                 Event::Flush => self.console_ops += 1,
                 Event::Rec { .. } => self.console_ops += 1,
                 Event::Fuel => self.no_verdict_fuel += 1,
